@@ -365,6 +365,75 @@ def check_debugger_histories_and_schedules(rec, rng):
     request(app, spy, "localhost", f"{int(ft.now)}|{hash_pin('999-888-777')}")
     if not spy.calls:
         rec.violation("C20/eval-not-run-although-gate-open", "cookie for the new PIN refused", {"part": "pin-changed"}, monitor="spy-frame")
+    # ---- configuration of one debugger instance is its own: another instance in the process (created before or
+    # after) whose list of trusted hosts was extended in place does not make this one trust that host
+    first = DebuggedApplication(inner, evalex=True, pin_security=False)
+    first.trusted_hosts.append("intranet.example")
+    second = DebuggedApplication(inner, evalex=True, pin_security=False)
+    third = DebuggedApplication(inner, evalex=True, pin_security=False)
+    third.trusted_hosts += [".corp.example"]
+    rec.case()
+    rec.nontrivial(("two-debuggers",))
+    rec.observe("debugger_instances_configured_separately")
+    for host in ("intranet.example", "x.corp.example"):
+        spy2 = SpyFrame()
+        second.frames[12345] = spy2
+        st, body = request(second, spy2, host, None)
+        envc = create_environ("/console")
+        envc["HTTP_HOST"] = host
+        itc, stc, hdc = run_wsgi_app(second, envc)
+        bodyc = b"".join(itc)
+        if spy2.calls or (stc.startswith("200") and b"console" in bodyc.lower() and bodyc != b"inner"):
+            rec.violation("C20/EVAL-GATE-BYPASS:trusted-host", f"a debugger that was never configured to trust {host!r} serves it (eval ran: {bool(spy2.calls)}, console: {stc}) because another instance's list was extended",
+                          {"part": "two-debuggers", "host": host}, monitor="spy-frame")
+            break
+    # ---- a forking server: every request is handled in a child process; failed PIN attempts still add up
+    import os as _os
+
+    if hasattr(_os, "fork"):
+        app = DebuggedApplication(inner, evalex=True, pin_security=True)
+        app.pin_cookie_name  # noqa: B018
+        app.pin = "111-222-333"
+
+        def attempt_in_child(pin):
+            rfd, wfd = _os.pipe()
+            pid = _os.fork()
+            if pid == 0:
+                try:
+                    q = {"__debugger__": "yes", "cmd": "pinauth", "s": app.secret, "pin": pin}
+                    env = create_environ("/", query_string=q)
+                    env["HTTP_HOST"] = "localhost"
+                    it, status, hd = run_wsgi_app(app, env)
+                    _os.write(wfd, b"".join(it))
+                except BaseException as e:  # noqa: BLE001
+                    _os.write(wfd, json.dumps({"error": repr(e)}).encode())
+                finally:
+                    _os._exit(0)
+            _os.close(wfd)
+            data = b""
+            while True:
+                chunk = _os.read(rfd, 65536)
+                if not chunk:
+                    break
+                data += chunk
+            _os.close(rfd)
+            _os.waitpid(pid, 0)
+            try:
+                return json.loads(data)
+            except ValueError:
+                return {"error": data[:100].decode("latin-1")}
+
+        for _ in range(12):
+            attempt_in_child("000-000-000")
+        r = attempt_in_child("111-222-333")
+        rec.case()
+        rec.nontrivial(("forking-server-pin",))
+        rec.observe("pin_attempts_in_forked_children", 13)
+        if "error" in r:
+            rec.observe("forked_attempt_failed_to_run")
+            rec.note(f"forked pin attempt: {r}")
+        elif r.get("auth"):
+            rec.violation("C20/PIN-LOCKOUT-BYPASS", f"12 wrong PINs, each handled in a forked child (forking server), then the right one: {r}", {"part": "pin", "history": ["wrong (forked)"] * 12 + ["right (forked)"]}, monitor="counter-model")
     # ---- trusted and untrusted requests in flight together
     mon = getattr(sys, "monitoring", None)
     TOOL = 5
